@@ -51,6 +51,16 @@ CHECKS = {
             'All 8^n tables (n<=3|4) and all ordered subsets including the empty one against a reference partition.', '4 C16'),
     'C17': ('exploration', 'complete boundary grid per field and all field pairs on a reduced grid vs a three-valued domain predicate', A_NOTE,
             'Acceptance is decided on every grid point (bounds, float neighbours, specials, wrong types) and for every pair of fields.', '4 C17'),
+    'C05': ('exploration', 'complete enumeration of a series x parameter lattice; two real code paths (design-side closed form vs tbr.TBR) + closed-form reference + metamorphic relations', A_NOTE,
+            'Every point of the stated lattice: design-side required impact, the TBR post-analysis of a frame built to show exactly that lift, and the closed form must agree.', '4 C05'),
+    'C06': ('exploration', 'complete enumeration of a frame lattice x layout variants x summary settings vs closed-form TBR posterior (every analysed day)', A_NOTE,
+            'All frames of the lattice in all layouts; degrees of freedom, location and scale on every day against OLS + Kerman eq. 5, all summary columns against reference quantiles, design-side fit.', '4 C06'),
+    'C07': ('exploration', 'complete enumeration of cost-frame lattice x scenarios x settings; coherence, determinism, unit equivariance', A_NOTE,
+            'All frames x cost scenarios x (tails, level, threshold, random_state) of the stated lattice; fixed-cost identities against the closed form, determinism by repeated calls, equivariance by re-running on rescaled frames.', '4 C07'),
+    'C18': ('exploration', 'complete enumeration of cooldown-frame lattice x metric x level x tails incl. control swings and unassigned-period dates', A_NOTE,
+            'All frames of the stated lattice; every clause of the statement against the closed-form posterior; the known finding K1 is keyed by a reference-model condition.', '4 C18'),
+    'C19': ('exploration', 'complete enumeration of frames (geos, planted noisy geo / outlier date, names, 3 row orders); consistency oracle', A_NOTE,
+            'All frames of the stated lattice fitted in three row orders; screened data and analysis series recomputed from the input and the reported removals.', '4 C19'),
     'C20': ('exploration', 'complete enumeration of all lists of <=2|3 entries over 44 entries + malformed embeddings vs date-ordinal reference', A_NOTE,
             'Every list over the entry alphabet up to the length bound, so every order/duplication/overlap pattern at that length is covered.', '4 C20'),
 }
@@ -73,7 +83,7 @@ def main():
             'level_note': note,
             'technique': tech,
         })
-    na = [{'property_id': p, 'reason': 'check not built yet in this session (planned, see DESIGN.md section 4); '
+    na = [{'property_id': p, 'reason': 'check not built yet (planned, see DESIGN.md section 4); '
            'bounded-exhaustive exploration applies'} for p in ALL if p not in CHECKS]
     man = {
         'version': 1,
